@@ -52,7 +52,9 @@ KEYS = [ksrxml.mk_key(P.rsa(1024, 65537, 150), alg=8, flags=257, ident="Kalpha")
         ksrxml.mk_key(P.ec(256, 150), alg=13, flags=257, ident="Kdelta"),
         ksrxml.mk_key(P.ec(384, 150), alg=14, flags=257, ident="Kepsilo"),
         ksrxml.mk_key(P.rsa(1024, 65537, 151), alg=8, flags=257, ident="Kextra1"),
-        ksrxml.mk_key(P.ec(256, 151), alg=13, flags=257, ident="Kextra2")]
+        ksrxml.mk_key(P.ec(256, 151), alg=13, flags=257, ident="Kextra2"),
+        ksrxml.mk_key(P.ec_tag_carry(13, 257), alg=13, flags=257, ident="Kcarry"),        # (sum & 0xFFFF) + (sum >> 16) overflows 16 bits
+        ksrxml.mk_key(P.ec_revoke_carry(13), alg=13, flags=257, ident="Kffxx")]
 P.save()
 cases, meta, hist = [], [], {}
 log = logging.getLogger("verif.c18")
@@ -265,14 +267,14 @@ for chosen, pres in (patterns if THOROUGH else patterns[:40]):
         vu = None if R.random() < 0.5 else vf + dt.timedelta(days=R.randrange(1, 4000), seconds=R.randrange(0, 86400))
         ksks[f"ksk{j}"] = ceremony.ksk_def(kd, valid_from=vf, valid_until=vu)
     present = [kd for kd, p in zip([CONF[i] for i in chosen], pres) if p]
-    extra = [k for k in KEYS[5:] if R.random() < 0.6]
+    extra = [k for k in KEYS[5:7] if R.random() < 0.6]
     export_case(token_for(present, extra, split=R.random() < 0.3, second_module=R.random() < 0.2), ksks, None, R.choice(IDS), "present-absent")
 # absent before present (configuration order), all absent, none configured
 ks = {"a": ceremony.ksk_def(KEYS[0], valid_from=stamp("odd")), "b": ceremony.ksk_def(KEYS[1], valid_from=stamp("odd")), "c": ceremony.ksk_def(KEYS[3], valid_from=stamp("tz")),
       "d": ceremony.ksk_def(KEYS[4], valid_from=stamp("tz"))}
 export_case(token_for([KEYS[1], KEYS[3], KEYS[4]], [KEYS[5]]), ks, None, "order-1", "absent-before-present")
 export_case(token_for([KEYS[0], KEYS[4]], [KEYS[6]]), ks, None, "order-2", "absent-before-present")
-export_case(token_for([], KEYS[5:]), ks, None, "none", "all-absent")
+export_case(token_for([], KEYS[5:7]), ks, None, "none", "all-absent")
 # equal validFrom, descending configuration order, validity given with offsets that change the order of the wall-clock digits
 t0 = dt.datetime(2024, 10, 10, 17, 0, 0, tzinfo=dt.timezone(dt.timedelta(hours=-8)))
 for variant in range(4):
@@ -300,6 +302,8 @@ ks = {"a": ceremony.ksk_def(KEYS[4], valid_from=t0, label="Kdelta")}
 export_case(token_for([KEYS[3]]), ks, None, "misfit", "algorithm-misfit")
 ks = {"a": ceremony.ksk_def(KEYS[2], valid_from=t0, algorithm="RSASHA256", label="Kgamma")}
 export_case(token_for([KEYS[2]]), ks, None, "alg8-for-10", "configured-algorithm-decides")
+ks = {"a": ceremony.ksk_def(KEYS[7], valid_from=t0), "b": ceremony.ksk_def(KEYS[8], valid_from=t0 + dt.timedelta(days=1)), "c": ceremony.ksk_def(KEYS[0], valid_from=t0)}
+export_case(token_for([KEYS[7], KEYS[8], KEYS[0]]), ks, None, "carry", "key-tag-carry")
 for ttl in (0, 3600, 2**31 - 1):
     export_case(token_for([KEYS[0]]), {"a": ceremony.ksk_def(KEYS[0], valid_from=t0)}, None, "ttl", "ttl", ttl=ttl)
 
